@@ -18,9 +18,9 @@ CHECK = dict(
             dict(name="history", run="^TestVerifC17History$", quick=40000, thorough=2000000, shards_quick=2, shards_thorough=8),
             dict(name="accept", run="^TestVerifC17Accept$", quick=5000, thorough=200000, shards_quick=1, shards_thorough=2),
             dict(name="acceptseq", run="^TestVerifC17AcceptSeq$", quick=3000, thorough=120000, shards_quick=1, shards_thorough=2),
-            dict(name="sockets", run="^TestVerifC17Sockets$", quick=2000, thorough=80000, shards_quick=3, shards_thorough=6),
+            dict(name="sockets", run="^TestVerifC17Sockets$", quick=2000, thorough=80000, shards_quick=3, shards_thorough=6, timeout_quick=900, timeout_thorough=3000),
             dict(name="history-race", run="^TestVerifC17History$", quick=2000, thorough=40000, shards_quick=1, shards_thorough=1, race=True),
-            dict(name="sockets-race", run="^TestVerifC17Sockets$", quick=200, thorough=4000, shards_quick=1, shards_thorough=1, race=True),
+            dict(name="sockets-race", run="^TestVerifC17Sockets$", quick=200, thorough=4000, shards_quick=1, shards_thorough=1, race=True, timeout_quick=900, timeout_thorough=3000),
         ]),
         dict(name="cmd", dir="internal/cmd", src="C17/cmd", runs=[
             dict(name="config", run="^TestVerifC17Config$", quick=1500, thorough=60000, shards_quick=1, shards_thorough=4),
